@@ -484,6 +484,9 @@ def run_case(key, tier, b, res):
             if not (sq == tt == tt2):
                 res.count("observed:same-value-different-expressions-disagreement")
             continue
+        if label.startswith("ref-dontcare:") and "coinciding instances of one forall increase/decrease" in label:
+            res.count("dontcare:coinciding-forall-incdec")
+            continue
         if label.startswith("ref-dontcare:") and "undefined" in label:
             # the docs leave reads of undefined values that do not matter (`true or undef`, `f == f`) to the implementation;
             # the two validators evaluate differently simplified expressions there: not judged (rule 1), only counted
